@@ -63,7 +63,7 @@ def sym_iter_models(kinds, label="wire", iter_name="symiter"):
         out.append((NONE, st0))
         for kname, val in kinds.items():
             st2 = st.fork()
-            cell = "%s.elem" % label
+            cell = "%s.elem.%s" % (label, kname)     # one cell per kind: same-kind elements are indistinguishable
             st2.heap[cell] = val
             st2.choose("%s.next" % label, kname)
             out.append((some(Ref(cell, (), False)), st2))
